@@ -2,7 +2,7 @@ package p2pke
 
 // C05: a channel talks only to an accepted key, and to the same key forever.
 
-//verif: replay=none time=concrete unwind=130 cover=promoted,app-data,new-responder,rejected-key bounds="Channel.Deliver: one step from an arbitrary slot state satisfying the documented invariant (slots 0/1 nil or ready with the channel key, slot 2 nil or pending with ANY key), acceptance predicate (key&m)==v for symbolic m,v, arbitrary packet (counter 0..79, 0..2 body bytes)"
+//verif: replay=none time=concrete unwind=130 cover=promoted,app-data,new-responder,rejected-key,restart-while-established bounds="Channel.Deliver: one step from an arbitrary slot state satisfying the documented invariant (slots 0/1 nil or ready with the channel key, slot 2 nil or pending with ANY key), acceptance predicate (key&m)==v for symbolic m,v, arbitrary packet (counter 0..79, 0..2 body bytes)"
 func VH_C05_channelStep() bool {
 	e := vChannel()
 	c := e.c
@@ -47,6 +47,10 @@ func VH_C05_channelStep() bool {
 	if s := c.sessions[2].Session; s != nil && s != e.sessions[2] {
 		vCover("new-responder")
 		vAssert(!s.isInit, "new-pending-session-is-not-a-responder")
+		vAssert(len(e.sent) == 1 && IsRespHello(e.sent[0]), "no-resp-hello-sent-for-new-responder-session")
+		if hadKey && s1 != nil {
+			vCover("restart-while-established")
+		}
 		if hadKey {
 			vAssert(vEqBytes(s.remoteKey.Key.Data, key0), "responder-session-created-for-a-different-key")
 		} else {
